@@ -290,7 +290,7 @@ func (h *HttpServer) handleStreamInit(w http.ResponseWriter, r *http.Request) {
 		handlerErr = err
 		if err == nil && !finished {
 			// Batch limit reached — append continuation token
-			token, tokenErr := h.packCursorToken(callID, state, auth)
+			token, tokenErr := h.packCursorTokenFor(method, callID, state, auth)
 			callToken, callErr := h.packCallToken(callID, outputSchema, auth, streamID)
 			if tokenErr != nil {
 				handlerErr = tokenErr
@@ -309,7 +309,7 @@ func (h *HttpServer) handleStreamInit(w http.ResponseWriter, r *http.Request) {
 		}
 	} else {
 		// Exchange init — return state token (carry schema for dynamic methods)
-		token, err := h.packCursorToken(callID, state, auth)
+		token, err := h.packCursorTokenFor(method, callID, state, auth)
 		if err != nil {
 			h.writeHttpError(w, http.StatusInternalServerError, err, nil)
 			return
@@ -486,6 +486,13 @@ func (h *HttpServer) handleStreamExchange(w http.ResponseWriter, r *http.Request
 		h.writeHttpError(w, http.StatusBadRequest, err, nil)
 		return
 	}
+	// A cursor only resumes the method that minted it. Checked before the
+	// call is resolved, the state rehydrated or any hook started, so a
+	// foreign cursor reaches no user code.
+	if err := checkCursorMethod(tokenData, method); err != nil {
+		h.writeHttpError(w, http.StatusBadRequest, err, nil)
+		return
+	}
 	call, err := h.resolveCall(tokenData, callTokenBytes, auth)
 	if err != nil {
 		h.writeHttpError(w, http.StatusBadRequest, err, nil)
@@ -639,7 +646,7 @@ func (h *HttpServer) handleProducerContinuation(ctx context.Context, w http.Resp
 	finished, err := h.runProduceLoop(ctx, writer, schema, state, info, stats, auth, transportMeta, cookies, sink, stripFrameworkTickMetadata(requestMeta))
 	if err == nil && !finished {
 		// Batch limit reached — append continuation token
-		token, tokenErr := h.packCursorToken(callID, state, auth)
+		token, tokenErr := h.packCursorTokenFor(info.Name, callID, state, auth)
 		if tokenErr != nil {
 			err = tokenErr
 		} else if werr := writeStateTokenBatch(writer, schema, token, nil); werr != nil {
@@ -721,7 +728,7 @@ func (h *HttpServer) handleExchangeCall(ctx context.Context, w http.ResponseWrit
 	}
 
 	// Serialize updated state into new token (carry schema for dynamic methods)
-	newToken, err := h.packCursorToken(callID, state, auth)
+	newToken, err := h.packCursorTokenFor(info.Name, callID, state, auth)
 	if err != nil {
 		out.releaseBatches()
 		h.logIPCWriteErr("error-batch", info.Name, writeErrorBatch(writer, schema, err, h.server.serverID, "", h.server.debugErrors))
